@@ -31,6 +31,8 @@ def main():
                 continue
             problems.append("exception " + r["error"])
         else:
+            if r.get("foreign_imports"):
+                problems.append(f"the generated module imports modules of other models generated earlier in the process: {r['foreign_imports'][:3]}")
             if not r["deterministic"]:
                 problems.append("two generations of the same model differ (or calling make_all_tables() again changes the output)")
             for k in ("K1", "K2", "K3"):
